@@ -91,6 +91,17 @@ def idExtension (e : IdExts) (c : Bytes) : Option IdExts :=
       | none => none
       | some (v, r2) => if r2 ≠ [] then none else idExtValue e id v
 
+/-- the optional `[3]` extensions at the end of the to-be-signed SEQUENCE -/
+def idExtsOf (r6 : Bytes) : Option IdExts :=
+  match takeOptCons 0xA3 r6 with
+  | .bad => none
+  | .absent => if r6 = [] then some {} else none
+  | .ok xc r7 =>
+    if r7 ≠ [] then none else
+    match takeCons tagSeq xc with
+    | none => none
+    | some (xs, xr) => if xr ≠ [] then none else foldCons tagSeq idExtension xs.length xs {}
+
 /-- `TbsIdCert::from_constructed` on the captured TBS octets -/
 def decodeTbsId (raw : Bytes) (signature : Bytes) : Option IdCertD :=
   match takeCons tagSeq raw with
@@ -124,16 +135,7 @@ def decodeTbsId (raw : Bytes) (signature : Bytes) : Option IdCertD :=
                     match takePublicKey r5 with
                     | none => none
                     | some (keyAlg, keyUnused, keyBits, r6) =>
-                      let exts : Option IdExts :=
-                        match takeOptCons 0xA3 r6 with
-                        | .bad => none
-                        | .absent => if r6 = [] then some {} else none
-                        | .ok xc r7 =>
-                          if r7 ≠ [] then none else
-                          match takeCons tagSeq xc with
-                          | none => none
-                          | some (xs, xr) => if xr ≠ [] then none else foldCons tagSeq idExtension xs.length xs {}
-                      match exts with
+                      match idExtsOf r6 with
                       | none => none
                       | some e =>
                         match e.ski with
